@@ -154,6 +154,45 @@ theorem imrb_correct (L : Layout) (hrb : gather L.nonrf L.rb_ = some L.rb)
             | cons _ _ => rfl
           simp [this, hrbE hr]
 
+/-- **the damping of the rigid-body modes** (uncoupled path, repaired code): the rows of `b` that
+`_solve_freq_rb` reads are the rigid-body equations' own, in the order of `force[rb]`, on both
+constructor paths — `self.b[self._rb]` with real coefficients, and `self.brb` with complex
+coefficients, which `get_su_eig` keeps *before* it reduces `b` to the elastic modes and empties
+`_rb` (taken afterwards it would address nothing: `damped_rb_instances`). -/
+theorem rbDampRows_correct (L : Layout) (hrb : gather L.nonrf L.rb_ = some L.rb)
+    (hel : gather L.nonrf L.el_ = some L.el) (eigPath mNone : Bool) (st : SuState)
+    (hst : suInit L eigPath mNone = some st) : rbDampRows st (!eigPath) = some L.rb := by
+  obtain ⟨st', hst', hlay, _, _, hN, _⟩ := imrb_correct L hrb hel eigPath mNone
+  have : st' = st := Option.some.inj (hst'.symm.trans hst)
+  subst this
+  cases eigPath with
+  | true => simp [rbDampRows, hlay, hrb]
+  | false =>
+    have hm := (hN rfl).2
+    have hr : st'.rb_ = L.rb_ := by
+      unfold suInit at hst'
+      by_cases hne : L.nonrf.isEmpty = true
+      · simp only [hne, if_true, Option.some.injEq] at hst'
+        rw [← hst']
+      · simp only [hne, Bool.false_eq_true, if_false, Bool.not_false, if_true, Option.some.injEq] at hst'
+        rw [← hst']
+    simp [rbDampRows, hm, hr, hrb]
+
+/-- the recorded inputs of F51 / F52 (`m=[2,3]`, `b=[0.8,0.3]`, `k=[0,50]`, the second with
+`k·(1+0.02j)`), evaluated: the damping rows of the rigid-body block are `[0]` on both paths, whereas
+on the complex path `b[_rb]` taken *after* `get_su_eig` reduced `b` (rows `[1]`, `_rb = []`) addresses
+nothing; and with the rigid-body mode last (`k=[50,0]`, rf absent) the rows are `[1]`. -/
+theorem damped_rb_instances :
+    ((mkLayout 2 [] none (fun j => j == 0)).bind fun L => (suInit L false false).map fun st =>
+      (L.rb, rbDampRows st true, rbMassRows st true)) = some ([0], some [0], some [0]) ∧
+    ((mkLayout 2 [] none (fun j => j == 0)).bind fun L => (suInit L true false).map fun st =>
+      (L.rb, rbDampRows st false, rbMassRows st false)) = some ([0], some [0], some [0]) ∧
+    ((mkLayout 2 [] none (fun j => j == 0)).bind fun L => (suInit L true false).map fun st =>
+      (st.mRows, st.rb_, gather st.mRows st.rb_)) = some ([1], [], some []) ∧
+    ((mkLayout 2 [] none (fun j => j == 1)).bind fun L => (suInit L true true).map fun st =>
+      (L.rb, rbDampRows st false, rbMassRows st false)) = some ([1], some [1], none) := by
+  refine ⟨?_, ?_, ?_, ?_⟩ <;> decide
+
 /-- the rows the constructor state addresses for `imrb` are the `imrbPick` of `Props/C02.lean`
 (`imrbPick_correct`): `self.m[self._rb]` with `_rb = np.nonzero(vec[nonrf])[0]` -/
 theorem imrbPick_is_state_rows (nonrf rb : List Nat) :
